@@ -12,7 +12,7 @@ EXPLANATION = (
     "variables, non-variable argument, variable list mismatch, taken predicate, free variables in the body, undefined body predicate, malformed) "
     "with their conditions. from_specification: every definition passes definition(taken), its predicate is inserted into taken before the next "
     "entry, lemmas are universally closed, assumptions/specs are refused, directions route to the forward/backward lists. GeneralLemma::try_from: "
-    "lemma -> conjecture and consequence are the formula; inductive lemma -> conjectures [base, step], consequence the original.")
+    "lemma -> conjecture and consequence are the formula; inductive lemma -> conjectures [base, step], consequence the original. SHARED: the induction guard is printed through the integer relation table, which prints each relation as itself (C06).")
 UNDECIDED = ["validity of induction over the integers >= n in the standard interpretation (mathematics)", "provability of any emitted problem"]
 ASSUMPTIONS = ["Formula::substitute is capture avoiding (C17)", "universal_closure quantifies exactly the free variables (C17/C04 collectors)"]
 
